@@ -59,12 +59,20 @@ def searchLoop (s : Store) (v : View) (mode : SlMode) (volNode : Ino) :
           | some (it2, reset) =>
             searchLoop s v mode volNode fuel (if reset then volNode else parent) it2 slCount saved
 
-def searchFuel : Nat := 100000
+/-- length of the longest symbolic-link target stored in the heap -/
+def maxLinkLen (s : Store) : Nat :=
+  s.nodes.foldl (fun acc (_, n) => match n with | .symlink _ l => max acc l.length | _ => acc) 0
+
+/-- enough iterations for any walk: at most `slCountMax + 1` link replacements, and between two replacements the
+    iterator only advances over a path no longer than the original plus the spliced targets
+    (`searchNode_fuel` in Props/C04 proves that this is never exhausted) -/
+def searchFuel (s : Store) (absPath : Bytes) : Nat :=
+  (slCountMax + 2) * (absPath.length + (slCountMax + 2) * (maxLinkLen s + 2) + 4)
 
 /-- searchNode -/
 def searchNode (s : Store) (v : View) (path : Bytes) (mode : SlMode) : SR :=
   let absPath := abs .linux path v.cwd
-  searchLoop s v mode v.root searchFuel v.root (Iter.new .linux absPath) 0 none
+  searchLoop s v mode v.root (searchFuel s absPath) v.root (Iter.new .linux absPath) 0 none
 
 /-! ### results -/
 
